@@ -106,7 +106,6 @@ func TestKillChild(t *testing.T) {
 }
 
 func runKill(rec *recorder, sc *Scenario) error {
-	ctx := context.Background()
 	root, err := os.MkdirTemp("", "vhkill")
 	if err != nil {
 		return err
@@ -149,8 +148,15 @@ func runKill(rec *recorder, sc *Scenario) error {
 	if id == uuid.Nil {
 		return fmt.Errorf("kill child never reported its plan id")
 	}
-	// the new process: this one
-	s := newSched(rec, sc, 0, 2)
+	return recoverOnDisk(rec, sc, root, id, 0, killedAt, !done)
+}
+
+// recoverOnDisk is the new process after a physical death of the old one: it reopens the file-backed store,
+// constructs a new Workstream on it (recovery) and records trace tr: Config, Crash (what is on disk), NewProc,
+// the events of this process, WaitRet, Read.
+func recoverOnDisk(rec *recorder, sc *Scenario, root string, id uuid.UUID, tr, killedAt int, killed bool) error {
+	ctx := context.Background()
+	s := newSched(rec, sc, tr, 2)
 	defer s.close()
 	reg := mkReg(s)
 	v, err := sqlite.New(ctx, root, reg)
@@ -171,7 +177,7 @@ func runKill(rec *recorder, sc *Scenario) error {
 	})
 	s.emit(0, func() ev {
 		return ev{"ev": "Config", "objs": pr.descs, "blocks": pr.blocks, "retries": sc.Shape.Retries, "cretries": sc.Shape.CRetries, "mode": "crash",
-			"tag": sc.Tag, "nplans": 1, "crashk": killedAt, "crashj": -1, "fn": sc.Fn, "killed": !done}
+			"tag": sc.Tag, "nplans": 1, "crashk": killedAt, "crashj": -1, "fn": sc.Fn, "killed": killed}
 	})
 	s.emit(0, func() ev {
 		return ev{"ev": "Crash", "snap": snapshot(pre, pr.nm), "reason": pre.Reason.String(), "k": killedAt, "j": -1, "base": "-", "old": false, "recovery": true, "ages": 0}
